@@ -75,6 +75,8 @@ def cases(draw, closed_only, allow_verify):
     # presence of the .dir vouches for its files by design) and only for the truthfulness check
     case["dst_holes"] = sorted(draw(st.sets(st.integers(0, 11), max_size=2))) \
         if not closed_only and draw(st.integers(0, 2)) == 1 else []
+    # one directory with more than 1000 files (batch / page / chunk sizes of uploads and listings)
+    case["bulk"] = draw(st.sampled_from([1001, 1500, 1990])) if draw(st.integers(0, 29)) == 17 else 0
     # requested ids carry obj_name labels (as DVC's outputs produce them)
     case["named"] = draw(st.booleans())
     # kind of the injected upload failure (OSError subclass is chosen by errno)
@@ -84,6 +86,8 @@ def cases(draw, closed_only, allow_verify):
     if allow_verify and draw(st.integers(0, 3)) == 0:
         case["verify"] = True
         case["corrupt"] = sorted(draw(st.sets(st.integers(0, 15), min_size=1, max_size=2)))
+        # also a directory OBJECT whose source bytes do not hash to its name (re-indented, still parseable)
+        case["corrupt_dir"] = draw(st.sampled_from([False, False, True]))
     return case
 
 
@@ -131,6 +135,9 @@ def execute(case, ctx, d, monitor_closure=True):  # noqa: C901, PLR0912, PLR0915
     tops = []  # per top-level object: dict(oid, files={oid: bytes}, isdir, path)
     for i, t in enumerate(case["trees"]):
         p = os.path.join(d, f"t{i}")
+        if i == 0 and case.get("bulk"):
+            t = dict(t, bulk={f"f{j}": "h:" + (b"bulk %d" % j).hex() for j in range(case["bulk"])})
+            case = dict(case, trees=[t, *case["trees"][1:]])
         flat = gen.materialise(t, p)
         man = ref.tree_manifest(flat)
         tops.append({"path": p, "isdir": True, "oid": ref.ref_tree_oid(man),
@@ -259,6 +266,20 @@ def execute(case, ctx, d, monitor_closure=True):  # noqa: C901, PLR0912, PLR0915
                     f.write(b"corrupted:" + oid.encode())
                 os.chmod(p, 0o444)  # still protected: the source store itself trusts it
                 o.corrupted.add(oid)
+        if case.get("corrupt_dir") and case["corrupt"]:
+            import json as _json
+
+            dirs = [t["oid"] for t in tops if t["isdir"] and t["oid"] not in o.src_removed]
+            if dirs:
+                oid = dirs[case["corrupt"][0] % len(dirs)]
+                p = src.oid_to_path(oid)
+                os.chmod(p, 0o644)
+                with open(p, "rb") as f:
+                    lst = _json.loads(f.read())
+                with open(p, "w", encoding="utf-8") as f:
+                    _json.dump(lst, f, indent=1)
+                os.chmod(p, 0o444)
+                o.corrupted.add(oid)
 
     # ---- request ----------------------------------------------------------------------------
     req_tops = [tops[i % len(tops)] for i in case["request"]]
@@ -325,8 +346,8 @@ def execute(case, ctx, d, monitor_closure=True):  # noqa: C901, PLR0912, PLR0915
                 o.vanished.add(oid)
 
     def monitor(_root, oid):
-        if not monitor_closure:
-            return
+        if not monitor_closure or case.get("bulk"):
+            return  # (bulk: one audit per placement would be quadratic; the after-states are audited)
         _, cont = ref.audit_local_store(dst_root)
         br = ref.closure_problems(cont)
         if br:
@@ -428,6 +449,10 @@ def classes_of(case, o):
     cl = [f"src={case['src_kind']}", f"dst={case['dst_kind']}", f"form={case['form']}"]
     if case["index"]:
         cl.append("dest-index")
+    if case.get("bulk"):
+        cl.append("directory-with->1000-files")
+    if case.get("corrupt_dir") and any(x.endswith(".dir") for x in o.corrupted):
+        cl.append("corrupt-dir-object-in-source")
     if getattr(o, "holes", None):
         cl.append("destination-has-dir-without-some-files")
     if case.get("named") and not o.via_push:
